@@ -15,9 +15,9 @@ def _mk(text, args, mode, label, **kw):
 def pre_programs(tier: str, seed: int):
     """(plist, const, pre_tree, origin)"""
     out = [(pl, True, pre, "core") for pl, pre in G.core_preconditions()]
-    n = 150 if tier == "quick" else 3000
+    n = 150 if tier == "quick" else 1500
     out += [(pl, c, t, "sampled") for pl, c, t in G.sampled_programs(seed * 7919 + 11, n, "pre")]
-    out += [(pl, c, t, "deep") for pl, c, t in G.deep_programs(seed, 40 if tier == "quick" else 800)]
+    out += [(pl, c, t, "deep") for pl, c, t in G.deep_programs(seed, 40 if tier == "quick" else 400)]
     return out
 
 
@@ -36,7 +36,7 @@ def eff_programs(tier: str, seed: int):
 
 def applicable_tasks(tier: str, seed: int, cap=None) -> List[dict]:
     cap = cap or (9 if tier == "quick" else 12)
-    lim = 3 if tier == "quick" else 6
+    lim = 3 if tier == "quick" else 4
     tasks = []
     for pl, const, pre, origin in pre_programs(tier, seed):
         params = G.PARAM_LISTS[pl]
